@@ -217,4 +217,22 @@ challenge squeezed from the member's transcript is absorbed (`common`); then `r`
 def rSchedule {F : Type} (summaries : List F) : List (TEvent F) :=
   .init :: (summaries.map .absorb ++ [.squeeze])
 
+/-- The events actually performed on the batching transcript by `batch_verify`, early exits
+included: nothing at all on a length mismatch (the check precedes `init`); a member with a wrong
+instance length or a failing `prepare` stops the iteration before its summary exists; a member
+with trailing bytes is absorbed first (`common(&summary)` precedes `assert_empty`) and then stops
+it; `r` is squeezed only if every member went through. `summary m` is the challenge squeezed from
+the member's own transcript after `prepare`. -/
+def rScheduleFull {F G : Type} (nPis nProofs : Nat) (members : List (Member F G))
+    (summary : Member F G → F) : List (TEvent F) :=
+  if nPis ≠ members.length ∨ nProofs ≠ members.length then [] else .init :: go members
+where
+  go : List (Member F G) → List (TEvent F)
+    | [] => [.squeeze]
+    | m :: rest =>
+      if !m.piLenOk then [] else
+      match m.prepared with
+      | .error _ => []
+      | .ok _ => if m.trailing then [.absorb (summary m)] else .absorb (summary m) :: go rest
+
 end MidnightZK.C15
